@@ -98,6 +98,8 @@ def main():
         results[sid] = rec
         print(sid, prop, 'DETECTED' if rec.get('detected') else 'MISSED', rec.get('detected_by'), rec.get('tests', ''))
         json.dump(results, open(results_path, 'w'), indent=1, sort_keys=True)
+    # the Generated*.v files must describe the unchanged tree again
+    sh('python3 %s' % os.path.join(VERIF, 'harness', 'tie_extract.py'))
     # put back the evidence files that describe the unchanged tree
     if os.path.isdir(ev_keep):
         for fn in os.listdir(ev_keep):
